@@ -308,6 +308,9 @@ class ModelDoc:
                     if r.rt == "U":
                         items = [x for x in r.pos[1].split(" ") if x != name_of(g)]
                         r.pos[1] = " ".join(items)
+                    elif r.rt == "O":
+                        items = [x for x in r.pos[1].split(" ") if x[:-1] != name_of(g)]
+                        r.pos[1] = " ".join(items)
         return gone
 
     # ---- rename
